@@ -52,8 +52,9 @@ LEVEL = {
                'proved by induction in Verus for all ciphers with D.E = id, all block sizes and lengths; every backend / core function of '
                'the nine crates is proved equal to its spec step (code = spec), so the block-level round trip follows for all inputs. '
                'Length preservation is part of every contract.',
-               'Bounded only: buffered-CFB data functions, the CTS round trip as such (each direction is proved against '
-               'NIST separately), and the composition with the padded / one-shot / stream front-ends of the cipher crate (driver harnesses).'),
+               'Ciphertext stealing: lemma_cbc_cs_roundtrip / lemma_ecb_cs_roundtrip prove dec(enc(m)) = m for every variant, residue and '
+               'block count over the NIST spec functions both directions are verified against. Bounded only: buffered-CFB data functions and '
+               'the encrypt_padded* front-ends (harnesses).'),
     'C02': _lv('Every CBC/PCBC/IGE backend method, state import/export and plumbing function of /repo is extracted token-exactly on each run '
                'and verified by Verus against the recurrence transcribed from the property (uninterpreted E/D, any block size, any parallel '
                'width, both aliasing cases, arbitrary ciphertext). Unbounded proof of the repo functions.',
@@ -72,8 +73,8 @@ LEVEL = {
                '800-38A Addendum for every block size, every length >= b (every residue, one block, whole blocks), both aliasing cases, '
                'any parallel width.',
                'The two *_b2b default methods are verified too (closure contracts spliced in; Result::and_then assumed with its std meaning). '
-               'decryption-inverts-encryption for CTS: tail-inversion lemmas + each direction proved against NIST separately; the harness '
-               'round trips are bounded (b in {2,3}, every L <= 3b+1).'),
+               'decryption-inverts-encryption for CTS is a lemma over the two NIST spec functions (whole message, all variants); the harness '
+               'round trips (b in {2,3}, every L <= 3b+1) are extra.'),
     'C06': _lv('BeltCtrCore init (s = le128(E(IV))), gen_ks_block (pre-increment mod 2^128, E(le128(s))), the parallel body, seek and '
                'remaining are verified by Verus for all E, IVs, positions and widths, including wrap of s across 2^128.'),
     'C07': _lv('The transducer contract is stated once on the block-mode traits EXTRACTED FROM THE PINNED cipher CRATE; every single-block and '
